@@ -92,6 +92,10 @@ def decode_literal(chars, start):
     raise ValueError('unterminated string')
 
 
+def _fdf_word(w):
+    return common.run_real(['fdf_value'], {'kind': 'fdf_value', 'text': w})
+
+
 def fdf_task(L):
     instrument.install()
     PF = importlib.import_module('habutax.pdf_filler')
@@ -305,6 +309,24 @@ def run(tier):
         else:
             c.spurious += 1
             c.inconclusive.append('witness did not reproduce: %r (%s)' % (v['text'], out.get('detail')))
+    if any(v['key'] is None for v in r['viol']):
+        # The implementation did something to the value that the string encoding cannot follow
+        # (e.g. a regular expression): those paths stay INCONCLUSIVE.  Supplementary, violation-only:
+        # the value is concretised over one representative per character class of the PDF
+        # literal-string decoder and every class word up to the bound goes through the real code.
+        import itertools
+        alphabet = ['\\', '(', ')', 'n', '1', 'a']
+        words = [''.join(w) for n_ in range(1, min(L, 4) + 1) for w in itertools.product(alphabet, repeat=n_)]
+        outs = common.pmap(_fdf_word, words)
+        c.extra['supplementary_class_words'] = len(words)
+        for w, out in zip(words, outs):
+            if out.get('reproduced'):
+                cls = ''.join(sorted(set(ch for ch in w if ch in '()\\')))
+                if ('fdf:not-faithful', cls) in seen:
+                    continue
+                seen.add(('fdf:not-faithful', cls))
+                c.replays_run += 1
+                c.violation('C19:fdf:not-faithful:%s' % (cls or 'other'), 'value %r does not decode back to itself from the FDF [real code: %s]' % (w, out.get('detail')), {'kind': 'fdf_value', 'text': w})
     from .. import retmodel
     jobs = []
     for y in (2021, 2022, 2023):
